@@ -47,6 +47,8 @@ var poolMakers = []func() *Term{
 	func() *Term { return mk("WrapWithGrpcCode", mk("WithDetail", mk("Unimplemented", nil))) },
 	func() *Term { return mk("ut.IsW", mk("WithSafeDetails_s", mk("ut.RegLeaf", nil))) },
 	func() *Term { return mk("WithContextTags", mk("ut.AsLeaf", nil)) },
+	func() *Term { return mk("os.ErrNotExist", nil) },
+	func() *Term { return mk("ut.PtrLeaf", nil) },
 }
 
 // PoolSize is the number of side trees.
@@ -243,4 +245,56 @@ func WithoutQuirks(t *Term) *Term {
 		}
 	}
 	return c
+}
+
+// withStr fills t with tokens and then sets the named slot of the first
+// op called opName (searching the spine, then side trees) to str (raw).
+func withStr(t *Term, slot, str string) *Term { return setStr(t.FillDefault(), t.Op.Name, slot, str) }
+
+func setStr(t *Term, opName, slot, str string) *Term {
+	done := false
+	t.EachSlot(func(k int, o *Term, i int) {
+		if !done && o.Op.Name == opName && o.Op.Slots[i].Name == slot {
+			o.S[i] = str
+			done = true
+		}
+	})
+	return t
+}
+
+// Extras are hand-picked corner compositions added to every term space:
+// one input per shortcut visible in the code (a reference that the marked
+// error already matches through an Is method, two As candidates in
+// different branches with the earlier one buried, empty replacement
+// messages, empty link components, the cause printed twice, …).
+func Extras() []*Term {
+	ts := []*Term{
+		mk("Mark", mk("ENOENT", nil), mk("os.ErrNotExist", nil)).FillDefault(),
+		mk("Mark", mk("EACCES", nil), mk("os.ErrPermission", nil)).FillDefault(),
+		mk("Mark", mk("ut.IsLeaf", nil), mk("ut.Sentinel", nil)).FillDefault(),
+		mk("WithStack", mk("Mark", mk("GoNew", nil), mk("Wrap", mk("Wrap", mk("New", nil))))).FillDefault(),
+		mk("Mark", mk("GoNew", nil), mk("GoErrorf_w", mk("GoErrorf_w", mk("GoNew", nil)))).FillDefault(),
+		mk("Join2", mk("Wrap", mk("ut.PtrLeaf", nil)), mk("ut.PtrLeaf", nil)).FillDefault(),
+		mk("Join2", mk("Join2", mk("ut.PtrLeaf", nil), mk("GoNew", nil)), mk("ut.PtrLeaf", nil)).FillDefault(),
+		mk("GoJoin2", mk("ut.UnwrapW", mk("ENOENT", nil)), mk("EACCES", nil)).FillDefault(),
+		mk("join.Join1", mk("Wrap", mk("GoNew", nil))).FillDefault(),
+		mk("Join2", mk("WrapWithGrpcCode", mk("GoNew", nil)), mk("GoNew", nil)).FillDefault(),
+		mk("Wrap", mk("Join2", mk("WrapWithHTTPCode", mk("GoNew", nil)), mk("WithHint", mk("GoNew", nil)))).FillDefault(),
+		withStr(mk("HandledWithMessage", mk("GoNew", nil)), "msg", ""),
+		setStr(mk("Wrap", mk("HandledWithMessage", mk("WithHint", mk("New", nil)))).FillDefault(), "HandledWithMessage", "msg", ""),
+		withStr(mk("HandledInDomainWithMessage", mk("GoNew", nil)), "msg", ""),
+		withStr(mk("ut.FullW", mk("GoNew", nil)), "msg", ""),
+		setStr(mk("WithStack", mk("ut.FullW", mk("GoNew", nil))).FillDefault(), "ut.FullW", "msg", ""),
+		withStr(mk("ut.RegFullW", mk("GoNew", nil)), "msg", ""),
+		withStr(mk("WithIssueLink", mk("GoNew", nil)), "url", ""),
+		withStr(mk("WithIssueLink", mk("GoNew", nil)), "detail", ""),
+		withStr(mk("Unimplemented", nil), "url", ""),
+		mk("WithTelemetry2", mk("WithDomain", mk("WithStack", mk("WithDomain", mk("WithStack", mk("GoNew", nil)))))).FillDefault(),
+		mk("Join2", mk("WithStack", mk("WithDomain", mk("GoNew", nil))), mk("New", nil)).FillDefault(),
+		mk("Newf_vw", mk("GoNew", nil), mk("WithDomain", mk("WithTelemetry", mk("GoNew", nil)))).FillDefault(),
+		mk("HandleAsAssertionFailure", mk("WithAssertionFailure", mk("WithHint", mk("New", nil)))).FillDefault(),
+		mk("HandleAsAssertionFailure", mk("AssertionFailedf", nil)).FillDefault(),
+		mk("Wrap", mk("WithContextTags_safe", mk("WithContextTags_int2", mk("New", nil)))).FillDefault(),
+	}
+	return ts
 }
